@@ -10,7 +10,6 @@ import (
 	"encoding/binary"
 	"fmt"
 	"hash"
-	"math/big"
 	"strings"
 )
 
@@ -57,6 +56,15 @@ func DT31(sum []byte) uint32 {
 
 // Format renders bin mod 10^digits as exactly digits decimal characters.
 func Format(bin uint32, digits int) string {
+	if digits > 19 {
+		// outside every supported length (only used to build submissions for refused configurations): the
+		// value zero-padded to that many characters, capped at 70000
+		if digits > 70000 {
+			digits = 70000
+		}
+		v := fmt.Sprint(bin)
+		return strings.Repeat("0", digits-len(v)) + v
+	}
 	return fmt.Sprintf("%0*d", digits, uint64(bin)%Pow10(digits))
 }
 
@@ -208,11 +216,26 @@ func DecimalQuestion(q string) ([]byte, bool) {
 			return nil, false
 		}
 	}
-	n, ok := new(big.Int).SetString(q, 10)
-	if !ok {
-		return nil, false
+	// schoolbook base conversion on nibbles (little-endian), independent of math/big which the library uses
+	var nib []byte
+	for i := 0; i < len(q); i++ {
+		carry := int(q[i] - '0')
+		for k := range nib {
+			v := int(nib[k])*10 + carry
+			nib[k], carry = byte(v&15), v>>4
+		}
+		for carry > 0 {
+			nib, carry = append(nib, byte(carry&15)), carry>>4
+		}
 	}
-	hx := strings.ToUpper(n.Text(16))
+	if len(nib) == 0 {
+		nib = []byte{0}
+	}
+	hxb := make([]byte, len(nib))
+	for k, v := range nib {
+		hxb[len(nib)-1-k] = "0123456789ABCDEF"[v]
+	}
+	hx := string(hxb)
 	if len(hx) > 256 {
 		return nil, false
 	}
@@ -353,11 +376,13 @@ func ParseSuite(name string) (OCRASuite, bool) {
 				mult = 3600
 				body = body[:len(body)-1]
 			}
-			n, ok := plainInt(body)
-			if !ok || n <= 0 || n > 100000 {
+			// any plain decimal number whose product with the unit is representable says exactly that many
+			// seconds; beyond that the string cannot be represented and is outside what may be accepted
+			n, ok := plainUint63(body)
+			if !ok || n <= 0 || n > (1<<63-1)/int64(mult) {
 				return s, false
 			}
-			s.TimeStep = n * mult
+			s.TimeStep = int(n) * mult
 		default:
 			return s, false
 		}
@@ -377,8 +402,30 @@ func allDigits(s string) bool {
 	return true
 }
 
+// plainUint63 reads a plain decimal number below 2^63 (ok=false otherwise).
+func plainUint63(s string) (int64, bool) {
+	if !allDigits(s) || len(s) > 40 {
+		return 0, false
+	}
+	var n int64
+	for i := 0; i < len(s); i++ {
+		d := int64(s[i] - '0')
+		if n > (1<<63-1-d)/10 {
+			return 0, false
+		}
+		n = n*10 + d
+	}
+	return n, true
+}
+
 func plainInt(s string) (int, bool) {
-	if !allDigits(s) || len(s) > 6 {
+	if !allDigits(s) {
+		return 0, false
+	}
+	for len(s) > 1 && s[0] == '0' {
+		s = s[1:] // leading zeros do not change what a number says
+	}
+	if len(s) > 6 {
 		return 0, false
 	}
 	n := 0
